@@ -63,6 +63,8 @@ def run(ctx):
     if infra:
         raise vlib.InfraError("driver could not build the spec view: %s" % infra[:3])
     summ = [x for x in rows if x.get("kind") == "summary"][0]
+    if summ.get("boundary_evals", 0) < 40:
+        raise vlib.InfraError("too few evaluations on the edges of the port draw's rejection sampling: %s" % summ.get("boundary_evals"))
     if summ.get("msg_views", 0) < 1000:
         raise vlib.InfraError("too few derivations went through the real message path (parseRegMessage, dual-stack): %s" % summ.get("msg_views"))
     ctx.log("B: %(evaluations)d evaluations over %(tuples)d applicable tuples x %(worlds)d configurations x %(secrets)d secrets; "
